@@ -2,7 +2,7 @@
 # Builds the framework from files on disk only (offline).
 set -e
 cd /verif/lean && lake build Rustemo rustemo_model
-for h in dyn regen cli gen; do
+for h in dyn regen cli gen astgen; do
   if [ -f /verif/harness/$h/Cargo.toml ]; then
     cd /verif/harness/$h && (cp -n /repo/Cargo.lock Cargo.lock 2>/dev/null || true)
     CARGO_NET_OFFLINE=true cargo build --offline
